@@ -38,7 +38,7 @@ func init() {
 		},
 		Run: run,
 		Floors: func(t string) map[string]int64 {
-			return map[string]int64{"orbit.reversed_single_ring": 1000, "orbit.unclosed": 1000, "orbit.all_reversed": 500, "orbit.rings_in_another_order": 500, "shape.with_holes": 500, "shape.hole_inside_the_box_of_another_hole": 150, "shape.multipolygon": 300,
+			return map[string]int64{"orbit.reversed_single_ring": 1000, "orbit.unclosed": 1000, "orbit.all_reversed": 500, "orbit.rings_in_another_order": 500, "shape.with_holes": 500, "shape.hole_inside_the_box_of_another_hole": 150, "shape.every_shell_vertex_touched_by_a_hole": 60, "shape.multipolygon": 300,
 				"centroid.MultiPolygon": 1000, "centroid.Polygon": 500, "area.exact_equal": 5000, "area.float": 1000, "op.area": 500, "op.centroid": 500,
 				"distance.on_line": 500, "distance.beyond_end": 500, "distance.zero_length_segment": 200, "buffer": 500, "length": 1000, "line.long": 300, "storage.rings_share_one_backing_array": 1000, "area.again_after_centroid_of_unclosed_spelling": 1000, "shape.far_from_origin": 1000, "shape.float_far_from_origin": 500, "shape.island_in_a_hole_of_another_member": 100, "line.very_long": 100, "line.extreme_magnitude": 200}
 		},
@@ -56,8 +56,9 @@ func run(c *core.Ctx, idx int) {
 // base is a valid polygon in canonical spelling: ring 0 the shell (ccw),
 // the others holes (ccw as generated), all open (no closing vertex).
 type base struct {
-	rings   []geom.Path
-	notched bool // two holes, one inside the other's bounding box
+	rings       []geom.Path
+	notched     bool // two holes, one inside the other's bounding box
+	cornerHoles bool // every vertex of the shell is also a vertex of a hole
 }
 
 func rect(x0, y0, x1, y1 float64) geom.Path {
@@ -66,6 +67,22 @@ func rect(x0, y0, x1, y1 float64) geom.Path {
 
 func genBase(r *gen.R, ox float64) base {
 	var b base
+	if r.Chance(0.06) {
+		// a triangular shell with a small hole tucked into each corner, touching the shell at that
+		// vertex only (valid: a hole may touch the shell at a point): every vertex of the shell then
+		// lies on another ring
+		k := float64(r.IntRange(1, 2))
+		a, bb, cc := geom.Point{X: ox - 30, Y: -30}, geom.Point{X: ox + 30, Y: -30}, geom.Point{X: ox, Y: 30}
+		b.rings = []geom.Path{{a, bb, cc},
+			{a, {X: a.X + 6*k, Y: a.Y + 1*k}, {X: a.X + 3*k, Y: a.Y + 5*k}},
+			{bb, {X: bb.X - 3*k, Y: bb.Y + 5*k}, {X: bb.X - 6*k, Y: bb.Y + 1*k}},
+			{cc, {X: cc.X - 2*k, Y: cc.Y - 6*k}, {X: cc.X + 2*k, Y: cc.Y - 6*k}}}
+		if r.Chance(0.3) {
+			b.rings = b.rings[:3] // one corner left free (the case that has always worked)
+		}
+		b.cornerHoles = len(b.rings) == 4
+		return b
+	}
 	var s float64 // half-side of a square known to lie strictly inside the shell, centred at (ox,0)
 	if r.Bool() {
 		for {
@@ -273,6 +290,9 @@ func runPolygon(c *core.Ctx) {
 		bases[m] = genBase(r, float64(m)*200)
 		if bases[m].notched {
 			c.Count("shape.hole_inside_the_box_of_another_hole")
+		}
+		if bases[m].cornerHoles {
+			c.Count("shape.every_shell_vertex_touched_by_a_hole")
 		}
 		a, cx, cy := bases[m].measures()
 		totalA.Add(totalA, a)
